@@ -267,3 +267,55 @@ func (e *Engine) getModel(file, text string, o Obligation) string {
 	}
 	return s
 }
+
+// solveBatch discharges many obligations of one function in a single
+// incremental solver process (push/pop), feeding the declarations in program
+// order so that each obligation sees exactly the assumptions made before it.
+// Members it does not prove are returned with verdict "" and are then solved
+// individually by the portfolio (sliced queries, all solvers, counterexamples).
+func solveBatch(dir string, e *Engine, obls []Obligation, timeout time.Duration) []Result {
+	res := make([]Result, len(obls))
+	var sb strings.Builder
+	// every check-sat of the batch gets a short limit: what is not immediate is
+	// left to the individual (sliced, portfolio) path
+	sb.WriteString("(set-option :timeout 2500)\n")
+	sb.WriteString(e.prelude())
+	pos := 0
+	for _, o := range obls {
+		for ; pos < o.Prefix; pos++ {
+			sb.WriteString(e.decls[pos] + "\n")
+		}
+		sb.WriteString(fmt.Sprintf("(push 1)\n(assert (not (=> %s %s)))\n(check-sat)\n(pop 1)\n", o.Reach, o.Prop))
+	}
+	text := sb.String()
+	fn := filepath.Join(dir, "batch_"+fileSafe(obls[0].Fn)+"_"+obls[0].Kind+fmt.Sprintf("_%d", len(obls))+".smt2")
+	os.WriteFile(fn, []byte(text), 0o644)
+	for i, o := range obls {
+		res[i] = Result{Name: o.Name, Group: o.Group, Kind: o.Kind, Fn: o.Fn, File: fn, Known: o.Known, Bytes: len(text)}
+	}
+	if strings.Contains(text, interiorPtr) || len(text) > 8<<20 {
+		return res
+	}
+	total := time.Duration(len(obls))*3*time.Second + 10*time.Second
+	_ = timeout
+	ctx, cancel := context.WithTimeout(context.Background(), total)
+	defer cancel()
+	t0 := time.Now()
+	out, _ := exec.CommandContext(ctx, "z3-new", "-T:"+fmt.Sprint(int(total.Seconds())), fn).CombinedOutput()
+	secs := time.Since(t0).Seconds()
+	var lines []string
+	for _, l := range strings.Split(string(out), "\n") {
+		l = strings.TrimSpace(l)
+		if l == "sat" || l == "unsat" || l == "unknown" || strings.HasPrefix(l, "timeout") {
+			lines = append(lines, l)
+		} else if strings.HasPrefix(l, "(error") {
+			return res // malformed for z3: let the individual path report it
+		}
+	}
+	for i := range obls {
+		if i < len(lines) && lines[i] == "unsat" {
+			res[i].Verdict, res[i].Solver, res[i].Secs = "unsat", "z3-new(batch)", secs/float64(len(obls))
+		}
+	}
+	return res
+}
